@@ -424,6 +424,26 @@ def opObjective (op : String) : P String := do
       let yf : Fin n → Int := fun i => y.getD i.val 0
       let (v, na) := lmnnCodeObjective L X (allTargetPairs targets) (allTriples yf targets) reg
       return s!"ok {Wire.render v} {na}"
+  | "nca_grad" => do
+      -- the gradient `_loss_grad_lbfgs` hands to L-BFGS (before the sign flip); weights materialised once
+      let y ← intArr n; finish
+      let W := (ncaWeights L X (fun i => y.getD i.val 0)).store
+      let S := (symFillDiag (Mat.ofStore W)).store
+      return "ok " ++ renderArr (gradFromWeights (Scalar.ofNat 2) L X (Mat.ofStore S)).toArray
+  | "mlkr_grad" => do
+      let y ← arr Float n; finish
+      let W := (mlkrWeights L X (Vec.ofArray y n)).store
+      let S := (symFillDiag (Mat.ofStore W)).store
+      return "ok " ++ renderArr (gradFromWeights (Scalar.ofNat 4) L X (Mat.ofStore S)).toArray
+  | "lmnn_grad" => do
+      let y ← intArr n; let reg ← scalar Float; let kT ← nat
+      let t ← natArr (n * kT); finish
+      if h : n = 0 then throw "no samples" else
+      let targets : Fin n → List (Fin n) := fun i =>
+        (List.range kT).map fun j => ⟨t.getD (i.val * kT + j) 0 % n, Nat.mod_lt _ (Nat.pos_of_ne_zero h)⟩
+      let yf : Fin n → Int := fun i => y.getD i.val 0
+      let G := (lmnnGradCode L X (allTargetPairs targets) (allTriples yf targets) reg)
+      return "ok " ++ renderArr G.toArray
   | _ => throw s!"unknown op {op}"
 
 /-- C13: SDML's graphical-lasso input, objective, duality gap and dual feasibility at a matrix `M` (Float twin) -/
@@ -481,7 +501,7 @@ def dispatch : P String := do
   | "pairs" | "chunks" | "knn_class" | "knn_clip" => opConstraints op
   | "form" => opForm
   | "sdml_eval" => opSdml
-  | "nca_obj" | "mlkr_obj" | "lmnn_obj" | "lmnn_code_obj" => opObjective op
+  | "nca_obj" | "mlkr_obj" | "lmnn_obj" | "lmnn_code_obj" | "nca_grad" | "mlkr_grad" | "lmnn_grad" => opObjective op
   | "lsml_eval" => opLsml
   | "scml_replay" => opScml
   | "mmc_budget" | "mmc_fd" | "mmc_gradproj" | "mmc_halfspace" | "mmc_psdproj" | "mmc_dobj" => opMmc op
